@@ -180,6 +180,36 @@ def p12_handler_loop(ctx):
     r.add(f, "Command::apply is awaited outside any select (not cancellable by shutdown)", bool(re_), where(b, abb), "" if re_ else "the apply future is not polled to completion in the handler body")
     in_sel = any(is_call_origin(x, "Command::apply", "Set::apply", "Get::apply", "Del::apply") for s2 in sels for x in s2["futs"])
     r.add(f, "no select branch applies a command", not in_sel, where(b, abb))
+    # nor is anything raced inside the appliers themselves: a command in progress (storage call and
+    # reply write) is never cancellable
+    for an in ("net::command::Command::apply", "net::command::set::Set::apply", "net::command::get::Get::apply", "net::command::del::Del::apply"):
+        n_sel = 0
+        wherex = "src/net/command.rs"
+        for ab in prog.family(an):
+            for s2 in selects(ab):
+                n_sel += 1
+                wherex = where(ab, s2["tuple_bb"])
+            for _, bb2, t2 in calls_in([ab], "tokio::time::timeout", "tokio::time::timeout_at"):
+                n_sel += 1
+                wherex = where(ab, bb2)
+        r.add(an, "applies the command without racing it against anything (no select/timeout)", n_sel == 0, wherex, "" if n_sel == 0 else "the storage call / reply write can be dropped half-way: a torn reply, or an acknowledged-looking command that was cancelled")
+    # fairness: the select must not be biased towards reading (a client that keeps the buffer full
+    # would starve the shutdown branch forever)
+    sel_cl = None
+    for st in b.blocks[s["tuple_bb"]]["stmts"]:
+        pass
+    fair = False
+    biased_first = None
+    for cb2 in fam:
+        if cb2.def_kind == "Closure" and cb2.path.startswith(b.path + "::"):
+            polls = [t2 for _, t2 in cb2.calls() if is_call_to(t2, "std::future::Future::poll")]
+            if polls:
+                rng = [t2 for _, t2 in cb2.calls() if (strip_generics(t2.get("callee")) or "").endswith("thread_rng_n")]
+                if rng:
+                    fair = True
+    if not fair and "recv" in kinds:
+        biased_first = kinds.index("recv") == 0
+    r.add(f, "the select polls its branches fairly (random start), or checks shutdown first", fair or bool(biased_first), where(b, s["tuple_bb"]), "" if (fair or biased_first) else "biased select with read_frame before the shutdown branch: shutdown is only observed when no request is buffered")
     ok, err, sw = try_edges_awaited(b, abb)
     r.add(f, "apply's error ends the connection (propagated)", bool(err) and all({c for c, d, rb in ret_classes(b, e[1], lambda x: x.kind in ("unwind", "ydrop"))} <= {"err"} for e in err), where(b, abb))
     # W3b: the command comes from Command::try_from(frame read) on its Ok edge
@@ -539,6 +569,12 @@ def p15_interval_loops(ctx):
                 good = bool(re_)
         r.add(f, "%s runs in spawn_blocking and is awaited" % want.split("::")[-1], good, where(b, sbs[0][1]) if sbs else short_span(b.span))
         # loop condition also observes shutdown (cheap exit): not required
+    # the jitter range may be empty-width (check_jitter = 0.0 is documented): the sampler must accept low == high
+    for mb in prog.family("storage::bitcask::merge_on_interval"):
+        for _, bb, t in calls_in([mb], "rand::distributions::Uniform::new", "rand::distributions::uniform::Uniform::new"):
+            r.bad("storage::bitcask::merge_on_interval", "Uniform::new (exclusive range) for the sleep period", where(mb, bb), "Uniform::new asserts low < high and panics when check_jitter is 0.0 (documented minimum): the merge task dies and no merge ever runs")
+        for _, bb, t in calls_in([mb], "rand::distributions::Uniform::new_inclusive", "rand::distributions::uniform::Uniform::new_inclusive"):
+            r.ok("storage::bitcask::merge_on_interval", "Uniform::new_inclusive accepts a zero-width jitter range", where(mb, bb))
     # sync loop only under IntervalMs, using its payload as the period
     b = _body_with(prog.family("storage::bitcask::sync_on_interval"), "tokio::time::sleep")
     if b is not None:
